@@ -122,17 +122,42 @@ func producersIn(p *Prog, pkg string, fnName string) map[string]string {
 	if body == nil {
 		return out
 	}
-	dtOfCall := func(e ast.Expr) string {
+	// local encoding helpers: name := func(v T) []byte { return <encode>(datatype.X, v) }
+	localEnc := map[string]string{}
+	var dtOfCall func(e ast.Expr) string
+	dtOfCall = func(e ast.Expr) string {
 		c, ok := e.(*ast.CallExpr)
-		if !ok || len(c.Args) == 0 {
+		if !ok {
 			return ""
 		}
 		fun := exprString(c.Fun)
+		if dt, ok := localEnc[fun]; ok {
+			return dt
+		}
+		if len(c.Args) == 0 {
+			return ""
+		}
 		if strings.HasSuffix(fun, "EncodeType") || strings.HasSuffix(fun, "encodeTypeFatal") {
 			return exprString(c.Args[0])
 		}
 		return ""
 	}
+	ast.Inspect(body, func(n ast.Node) bool {
+		as, ok := n.(*ast.AssignStmt)
+		if !ok || len(as.Lhs) != 1 || len(as.Rhs) != 1 {
+			return true
+		}
+		fl, ok := as.Rhs[0].(*ast.FuncLit)
+		if !ok || len(fl.Body.List) != 1 {
+			return true
+		}
+		if rs, ok := fl.Body.List[0].(*ast.ReturnStmt); ok && len(rs.Results) == 1 {
+			if dt := dtOfCall(rs.Results[0]); dt != "" && strings.HasPrefix(dt, "datatype.") {
+				localEnc[exprString(as.Lhs[0])] = dt
+			}
+		}
+		return true
+	})
 	strConst := func(e ast.Expr) (string, bool) {
 		if tv, ok := info.Types[e]; ok && tv.Value != nil && tv.Value.Kind() == constant.String {
 			return constant.StringVal(tv.Value), true
@@ -300,15 +325,17 @@ func c10Canonical(p *Prog, r *Report) {
 	cr := getClientRoles(p)
 	tblF := p.Field("parser", "SelectStatement", "Table")
 	cmp := map[string]bool{}
-	eachInstr(cr.intercept, func(in ssa.Instruction) {
-		if bo, ok := in.(*ssa.BinOp); ok && bo.Op == token.EQL {
-			if f, _ := loadedField(bo.X); f == tblF {
-				if s, ok := constStr(bo.Y); ok {
-					cmp[s] = true
+	for _, ifn := range cr.interceptFns() {
+		eachInstr(ifn, func(in ssa.Instruction) {
+			if bo, ok := in.(*ssa.BinOp); ok && bo.Op == token.EQL {
+				if f, _ := loadedField(bo.X); f == tblF {
+					if s, ok := constStr(bo.Y); ok {
+						cmp[s] = true
+					}
 				}
 			}
-		}
-	})
+		})
+	}
 	var ib []string
 	for _, need := range []string{"local", "peers"} {
 		if !cmp[need] {
@@ -597,37 +624,73 @@ func c10Rows(p *Prog, r *Report) {
 		}
 		return ""
 	}
-	localRows, peerRows := "", ""
-	eachInstr(fn, func(in ssa.Instruction) {
-		a, ok := in.(*ssa.Alloc)
-		if !ok || !typeIs(a.Type(), "message", "RowsResult") {
+	_ = armOf
+	// row counts by simulation of the interceptor with its helpers looked through: which table
+	// arm a path took, and the length (0 / 1 / more) of the slice stored as the result's Data
+	sm := newSim(p)
+	sm.TrackLens = true
+	sm.Inline = func(f *ssa.Function) bool { return cr.ihelp[f] }
+	sm.OnBranch = func(st *State, cond ssa.Value, truth bool) {
+		if bo, ok := cond.(*ssa.BinOp); ok && bo.Op == token.EQL && truth {
+			if f, _ := loadedField(bo.X); f == tblF {
+				if k, ok := constStr(bo.Y); ok {
+					st.aux["table"] = k
+				}
+			}
+		}
+	}
+	sm.OnInstr = func(st *State, in ssa.Instruction) {
+		stv, ok := in.(*ssa.Store)
+		if !ok {
 			return
 		}
-		for _, ref := range *a.Referrers() {
-			fa, ok := ref.(*ssa.FieldAddr)
-			if !ok || fieldOfAddr(fa).Name() != "Data" {
-				continue
-			}
-			for _, rr := range *fa.Referrers() {
-				st, ok := rr.(*ssa.Store)
-				if !ok {
-					continue
-				}
-				d := lenDesc(fn, st.Val)
-				switch armOf(st.Block()) {
-				case "local":
-					localRows = d
-				case "peers":
-					peerRows = d
+		fa, ok := stv.Addr.(*ssa.FieldAddr)
+		if !ok || fieldOfAddr(fa).Name() != "Data" || !typeIs(fa.X.Type(), "message", "RowsResult") {
+			return
+		}
+		d := "?"
+		a := sm.eval(st, stv.Val)
+		if sl, ok := stv.Val.(*ssa.Slice); ok && sl.Low == nil && sl.High == nil {
+			if al, ok := sl.X.(*ssa.Alloc); ok {
+				if arr, ok := al.Type().Underlying().(*types.Pointer).Elem().Underlying().(*types.Array); ok {
+					a = avSymbol(fmt.Sprintf("len:%d", arr.Len()))
 				}
 			}
 		}
-	})
-	if localRows != "1" {
-		bad = append(bad, fmt.Sprintf("system.local is answered with [%s] rows instead of exactly one", localRows))
+		switch {
+		case a.K == avNil:
+			d = "0"
+		case a.K == avSym && strings.HasPrefix(a.S, "len:"):
+			d = a.S[4:]
+		}
+		st.aux["rows"] = d
 	}
-	if !strings.Contains(peerRows, "per-element") && !strings.Contains(peerRows, "in") && !strings.Contains(peerRows, "conditional") {
-		bad = append(bad, fmt.Sprintf("system.peers rows are not built one per node (found [%s])", peerRows))
+	localRows, peerRows := map[string]bool{}, map[string]bool{}
+	for _, o := range sm.Run(fn, newState()) {
+		if o.Panic {
+			continue
+		}
+		rows, has := o.St.aux["rows"]
+		if !has {
+			continue
+		}
+		switch o.St.aux["table"] {
+		case "local":
+			localRows[rows] = true
+		case "peers":
+			peerRows[rows] = true
+		}
+	}
+	r.count("sim_states", sm.Nodes)
+	if len(localRows) == 0 || len(peerRows) == 0 {
+		fatalf("rule %s: the rows written for system.local / system.peers could not be located in the interceptor", rule)
+	}
+	if len(localRows) != 1 || !localRows["1"] {
+		bad = append(bad, fmt.Sprintf("system.local is answered with %v rows instead of exactly one", sortedKeys(localRows)))
+	}
+	// peers: the rows are accumulated in a loop (the length is not one fixed number)
+	if len(peerRows) < 2 && !peerRows["?"] {
+		bad = append(bad, fmt.Sprintf("system.peers rows are not built one per node (always %v rows)", sortedKeys(peerRows)))
 	}
 	// the peers loop ranges over proxy.nodes and skips exactly the local node
 	skipOK, countOK := false, false
@@ -668,7 +731,14 @@ func c10Rows(p *Prog, r *Report) {
 	px := p.Named("proxy", "Proxy")
 	bn := p.methodOf(px, "buildNodes")
 	drops := false
-	eachCall(bn, func(c ssa.CallInstruction) {
+	var bnFns []*ssa.Function
+	for _, f := range withCallees(p, bn, 2) {
+		if f == bn || (f.Parent() == nil && f.Pkg == bn.Pkg && onlyCalledFrom(p, f, bn, 3)) {
+			bnFns = append(bnFns, f)
+		}
+	}
+	for _, bf := range bnFns {
+	eachCall(bf, func(c ssa.CallInstruction) {
 		if callIsFunc(c, "proxy", "compareIPAddr") {
 			v := c.(ssa.Value)
 			for _, ref := range *v.Referrers() {
@@ -680,6 +750,7 @@ func c10Rows(p *Prog, r *Report) {
 			}
 		}
 	})
+	}
 	r.check(drops, rule, "Proxy.buildNodes:self-peer", p.Pos(bn.Pos()), "", "a peer entry equal to the proxy's own address is not dropped (the proxy would list itself as a peer)")
 }
 
@@ -833,9 +904,22 @@ func c10Tokens(p *Prog, r *Report) {
 	// the bool flag guarding it (calculateTokens): a bool phi among the dominating conditions
 	var flag ssa.Value
 	for _, ct := range dominatingConds(eventBlk) {
-		if phi, ok := ct.Cond.(*ssa.Phi); ok && ct.Truth {
+		if !ct.Truth {
+			continue
+		}
+		if phi, ok := ct.Cond.(*ssa.Phi); ok {
 			if b, ok := phi.Type().Underlying().(*types.Basic); ok && b.Kind() == types.Bool {
 				flag = phi
+			}
+		}
+		// or the test itself: no tokens configured for this proxy (len(<...Tokens>) == 0)
+		if bo, ok := ct.Cond.(*ssa.BinOp); ok && flag == nil && bo.Op == token.EQL {
+			if la := lenArg(bo.X); la != nil {
+				for _, o := range origins(la) {
+					if f, _ := loadedField(o); f != nil && f.Name() == "Tokens" {
+						flag = bo
+					}
+				}
 			}
 		}
 	}
@@ -862,6 +946,9 @@ func c10Tokens(p *Prog, r *Report) {
 	s := newSim(p)
 	s.TrackLens = true
 	s.Pinned[flag] = true
+	s.Inline = func(f *ssa.Function) bool {
+		return f != bn && f.Parent() == nil && f.Pkg == bn.Pkg && onlyCalledFrom(p, f, bn, 3)
+	}
 	s.OnInstr = func(st *State, in ssa.Instruction) {
 		if in == eventInstr {
 			st.aux["assigned"] = "1"
@@ -887,9 +974,7 @@ func c10Tokens(p *Prog, r *Report) {
 					}
 				}
 				if isNode {
-					if b, known := st.vals[flag].isBool(); !known || b {
-						st.aux["peerWithoutOwnTokens"] = "1"
-					}
+					st.aux["peerAdded"] = "1"
 				}
 			}
 		}
@@ -901,7 +986,8 @@ func c10Tokens(p *Prog, r *Report) {
 			continue
 		}
 		n++
-		if o.St.aux["peerWithoutOwnTokens"] == "1" && o.St.aux["assigned"] != "1" {
+		calc, known := o.St.vals[flag].isBool()
+		if o.St.aux["peerAdded"] == "1" && o.St.aux["assigned"] != "1" && (!known || calc) {
 			bad = append(bad, fmt.Sprintf("a path ending at %s adds a peer while tokens are calculated but skips the token assignment: that peer (and this proxy's view of the ring) has no tokens", p.Pos(o.Pos)))
 		}
 	}
